@@ -259,14 +259,8 @@ func GenNum(repo string) (string, error) {
 			return "", fmt.Errorf("%s: %s does not return a call", ff.path, name)
 		}
 		callee := ff.text(call.Fun)
-		var lits []string
 		cc := &ctx{f: ff, consts: map[string]constant.Value{}, alias: map[string]string{}}
-		for _, a := range call.Args {
-			if v, ok := cc.constVal(a); ok {
-				lits = append(lits, leanIntC(v))
-			}
-		}
-		return "(" + leanStr(name) + ", " + leanStr(callee) + ", [" + strings.Join(lits, ", ") + "])", nil
+		return "(" + leanStr(name) + ", " + leanStr(callee) + ", [" + strings.Join(argList(ff, cc, fd, call), ", ") + "])", nil
 	}
 	var signs []string
 	for _, n := range []string{"Positive", "Negative", "NonPositive", "NonNegative"} {
@@ -276,7 +270,7 @@ func GenNum(repo string) (string, error) {
 		}
 		signs = append(signs, s)
 	}
-	fmt.Fprintf(&b, "/-- `validate.Positive/…`: (name, function called, literal arguments). -/\ndef signOps : List (String × String × List Int) := [\n  %s\n]\n\n", strings.Join(signs, ",\n  "))
+	fmt.Fprintf(&b, "/-- `validate.Positive/…`: (name, function called, its arguments as expressions over the parameters). -/\ndef signOps : List (String × String × List Arg) := [\n  %s\n]\n\n", strings.Join(signs, ",\n  "))
 
 	// --- MultipleOf: the float rule ------------------------------------------------------------
 	fd, err = f.fn("MultipleOf")
@@ -337,7 +331,7 @@ func GenNum(repo string) (string, error) {
 		}
 		wiring = append(wiring, "("+leanStr(fd.Name.Name)+", "+leanStr(calls[0])+", [])")
 	}
-	fmt.Fprintf(&b, "/-- `internal/checks`: constructor → the `validate` call whose negation raises the issue (or the constructor it forwards to, with its literal arguments). -/\ndef checkCtors : List (String × String × List Int) := [\n  %s\n]\n\n", strings.Join(wiring, ",\n  "))
+	fmt.Fprintf(&b, "/-- `internal/checks`: constructor → the `validate` call whose negation raises the issue (or the constructor it forwards to, with its arguments as expressions over the parameters). -/\ndef checkCtors : List (String × String × List Arg) := [\n  %s\n]\n\n", strings.Join(wiring, ",\n  "))
 
 	// --- schema methods → check constructors ----------------------------------------------------
 	for _, spec := range []struct{ file, recv, def string }{{"types/integer.go", "ZodIntegerTyped", "integerMethods"}, {"types/float.go", "ZodFloatTyped", "floatMethods"}} {
@@ -376,7 +370,7 @@ func GenNum(repo string) (string, error) {
 			for _, x := range extra {
 				// not a call chain: the method does something before (or instead of) attaching its check —
 				// an entry no resolution goes through, so `methods_table` fails on it
-				chain = append(chain, "(false, "+leanStr("«"+x+"»")+", none)")
+				chain = append(chain, "(false, "+leanStr("«"+x+"»")+", .raw \"\")")
 			}
 			var walk func(e ast.Expr) error
 			walk = func(e ast.Expr) error {
@@ -404,11 +398,12 @@ func GenNum(repo string) (string, error) {
 					name = tf.text(inner.Fun)
 					args = inner.Args
 				}
-				arg := "none" // the method's own bound parameter
+				// the FIRST argument as an expression: the method's own first parameter passed unchanged
+				// (`.param 0`), a constant (`.lit n`), or anything else as raw Go text (`.raw`: no meaning,
+				// `methods_table` fails on it — round 4c, audit M10: `checks.Gt(value+1)` used to look like `value`)
+				arg := ".raw " + leanStr("«no argument»")
 				if len(args) > 0 {
-					if v, ok := cc.constVal(args[0]); ok {
-						arg = "some " + leanIntC(v)
-					}
+					arg = argOf(tf, cc, m, args[0])
 				}
 				viaChecks := "false"
 				if strings.HasPrefix(name, "checks.") {
@@ -429,10 +424,51 @@ func GenNum(repo string) (string, error) {
 		if len(ms) == 0 {
 			return "", fmt.Errorf("%s: no numeric methods found", spec.file)
 		}
-		fmt.Fprintf(&b, "/-- `%s`: method → (bound parameter type, the chain of (through `checks.`?, check constructor / method, argument) it applies;\n    argument `none` = the method's own bound, `some n` = a literal). -/\ndef %s : List (String × String × List (Bool × String × Option Int)) := [\n  %s\n]\n\n", spec.recv, spec.def, strings.Join(ms, ",\n  "))
+		fmt.Fprintf(&b, "/-- `%s`: method → (bound parameter type, the chain of (through `checks.`?, check constructor / method, argument) it applies;\n    argument `.param 0` = the method's own bound passed unchanged, `.lit n` = a constant, `.raw` = any other expression). -/\ndef %s : List (String × String × List (Bool × String × Arg)) := [\n  %s\n]\n\n", spec.recv, spec.def, strings.Join(ms, ",\n  "))
 	}
 	b.WriteString("end Gozod.Gen.NumDispatch\n")
 	return b.String(), nil
+}
+
+// argOf renders one call argument as a term of `Dispatch.Arg`: `.param i` = the i-th parameter of the
+// enclosing function passed unchanged, `.rest` = the variadic parameter forwarded (`params...`),
+// `.lit n` = an integer constant, `.raw "<go>"` = anything else (no meaning on the Lean side).
+func argOf(ff *file, cc *ctx, fd *ast.FuncDecl, a ast.Expr) string {
+	if id, ok := a.(*ast.Ident); ok {
+		i := 0
+		for _, fld := range fd.Type.Params.List {
+			for _, n := range fld.Names {
+				if n.Name == id.Name {
+					if _, variadic := fld.Type.(*ast.Ellipsis); variadic {
+						break
+					}
+					return fmt.Sprintf(".param %d", i)
+				}
+				i++
+			}
+		}
+	}
+	if v, ok := cc.constVal(a); ok && constant.ToInt(v).Kind() == constant.Int {
+		return ".lit " + leanIntC(v)
+	}
+	return ".raw " + leanStr(ff.text(a))
+}
+
+func argList(ff *file, cc *ctx, fd *ast.FuncDecl, call *ast.CallExpr) []string {
+	var out []string
+	for i, a := range call.Args {
+		if call.Ellipsis.IsValid() && i == len(call.Args)-1 {
+			if id, ok := a.(*ast.Ident); ok {
+				last := fd.Type.Params.List[len(fd.Type.Params.List)-1]
+				if _, variadic := last.Type.(*ast.Ellipsis); variadic && len(last.Names) == 1 && last.Names[0].Name == id.Name {
+					out = append(out, ".rest")
+					continue
+				}
+			}
+		}
+		out = append(out, argOf(ff, cc, fd, a))
+	}
+	return out
 }
 
 func leanIntC(v constant.Value) string {
